@@ -5,6 +5,7 @@ import os
 import common
 import conc
 import driver
+import replay as rp
 
 PROPERTIES_FILE = "Properties/Properties_C01_root.v"
 COQ_DEPS = ["Proofs/RootQ_wake_proofs.vo", "Extract/Extract_rootq.vo"]
@@ -427,7 +428,7 @@ def from_hex(x):
     return -int(x[1:], 16) if x.startswith("-") else int(x, 16)
 
 
-def global_replay(run, threads, window=48):
+def global_replay(run, threads, window=128):
     """threads: list of (thr, kind, events) of ONE harness run, monitor surgery done.  The whole run is replayed on the global
     model RootQ.gstep (RootQR.replay, extracted): returns (dict of REPLAY_FIELDS, number of actions, rejected threads)"""
     import subprocess
@@ -437,17 +438,39 @@ def global_replay(run, threads, window=48):
     # pthread_create k (in time order of the successful cmpxchg on the pool size) starts the k-th worker (in order of first event)
     creates = sorted((e.seq, thr) for (thr, kind, evs) in threads for e in evs
                      if e.kind == 5 and e.obj == 1 and e.off == run.off_pool and (e.ok & 1))
-    workers = sorted((evs[0].seq, thr) for (thr, kind, evs) in threads if kind == "worker")
-    target = {}
+    workers = sorted((evs[0].tid, thr) for (thr, kind, evs) in threads if kind == "worker")     # kernel thread ids grow with creation
+    target, born = {}, {}
     for k, (sq, thr) in enumerate(creates):
-        target.setdefault(thr, []).append(workers[k][1] + 1 if k < len(workers) else 100000 + k)
+        if k < len(workers):
+            target.setdefault(thr, []).append(workers[k][1] + 1)
+            born[workers[k][1]] = sq
+        else:
+            target.setdefault(thr, []).append(100000 + k)
+    # The stamp of a thread's first event is taken after the recorder has set the thread up and can be very late.  A pool
+    # worker's first event is its decrement of dgq_pending: its place is found on the exact old->new chain of dgq_pending
+    # (a word that is only ever read-modify-written): right before the next write of that chain.
+    M32 = 0xFFFFFFFF
+    firsts = set(id(evs[0]) for (thr, kind, evs) in threads if kind == "worker" and thr in born)
+    pend_w = [e for (_, _, evs) in threads for e in evs
+              if e.obj == 1 and e.off == run.off_pend and (e.kind in (6, 7) or (e.kind == 4 and (e.ok & 1)))]
+    newv = lambda e: (e.a + e.b) & M32 if e.kind == 6 else (e.a - e.b) & M32 if e.kind == 7 else e.b & M32
+    order = rp.chain_wild(pend_w, 0, lambda e: e.a & M32, newv, lambda e: e.thr, lambda e: e.seq)
+    second = {id(evs[0]): 2 * evs[1].seq for (thr, kind, evs) in threads if len(evs) > 1}
+    key = {}
+    if order is not None:
+        nxt = None
+        for e in reversed(order):
+            if id(e) in firsts:
+                key[id(e)] = min((nxt - 1) if nxt is not None else 2 * e.seq, second.get(id(e), 2 * e.seq + 2) - 1)
+            nxt = key.get(id(e), 2 * e.seq)
     lines = []
     for (thr, kind, evs) in threads:
         lines.append("R %x %x %s" % (thr + 1, 1 if kind == "worker" else 0, " ".join("%x" % u for u in target.get(thr, []))))
-        for e in evs:
+        for j, e in enumerate(evs):
             stamp = 2 * e.seq - (1 if e.line == 0 and e.kind == 100 and e.a == 1 else 0)   # the synthetic monitor call sits before its probe
-            lines.append("F %x %s %s %s %s %s %s %s %x" % (stamp, hexz(e.kind), hexz(e.order), hexz(e.obj), hexz(e.off), hexz(e.size),
-                                                          hexz(e.a), hexz(e.b), e.ok & 1))
+            stamp = key.get(id(e), stamp)
+            lines.append("F %x 0 0 %s %s %s %s %s %s %s %x" % (stamp, hexz(e.kind), hexz(e.order), hexz(e.obj), hexz(e.off),
+                                                              hexz(e.size), hexz(e.a), hexz(e.b), e.ok & 1))
         lines.append(".")
     lines.append("G %d %x %d" % (run.oc, run.pool0, window))
     r = subprocess.run([exe], input="\n".join(lines) + "\n", stdout=subprocess.PIPE, stderr=subprocess.PIPE, text=True, timeout=600)
